@@ -204,6 +204,35 @@ pub fn macro_chain_self_include(k: usize) -> Shape {
     Shape { name: format!("macro chain of depth {} -> `include of the file itself", k), files: vec![("top.sv".into(), s)], expect: Expect::Limit { min_wrappers: 0 } }
 }
 
+/// macro chain whose every callee's name extends its caller's name (W -> Wx -> Wxx -> … -> leaf): legal, but a self-reference
+/// test by prefix / substring instead of by identifier takes it for recursion (seed C09e)
+pub fn macro_chain_prefix_names(d: usize) -> Shape {
+    let name = |i: usize| format!("W{}", "x".repeat(d - 1 - i));
+    let mut s = String::new();
+    s.push_str(&format!("`define {} leaf\n", name(0)));
+    for i in 1..d {
+        s.push_str(&format!("`define {} [`{}-1:0] \"`{}\"\n", name(i), name(i - 1), name(i)));
+    }
+    s.push_str(&format!("a `{} b\n", name(d - 1)));
+    let mut toks = vec!["a".to_string()];
+    // expected tokens are computed by the same rule the shape is built from: each level wraps the inner text in [ … -1:0] "`name"
+    fn expand(i: usize, name: &dyn Fn(usize) -> String, out: &mut Vec<String>) {
+        if i == 0 {
+            out.push("leaf".to_string());
+        } else {
+            out.push("[".to_string());
+            expand(i - 1, name, out);
+            for t in ["-", "1", ":", "0", "]"] {
+                out.push(t.to_string());
+            }
+            out.push(format!("\"`{}\"", name(i)));
+        }
+    }
+    expand(d - 1, &name, &mut toks);
+    toks.push("b".to_string());
+    Shape { name: format!("macro chain of depth {} with names extending one another", d), files: vec![("top.sv".into(), s)], expect: Expect::Tokens(toks) }
+}
+
 fn shapes() -> Vec<Shape> {
     let mut v = Vec::new();
     for k in [1usize, 3, 8, 20, 56] {
@@ -223,6 +252,9 @@ fn shapes() -> Vec<Shape> {
     }
     for d in 1..=80 {
         v.push(macro_chain(d));
+    }
+    for d in [1usize, 2, 3, 10, 40, 64] {
+        v.push(macro_chain_prefix_names(d));
     }
     for d in 1..=80 {
         v.push(include_chain(d));
